@@ -222,8 +222,9 @@ def _split_propagate(o, fn, pv, depth=0):
             res.append({"kind": "call", "term": term, "inner": term, "bb": dbb, "idx": "term",
                         "conds": conditions(fn, pv, dbb), "line": line, "via": o["bb"]})
         elif is_call(term):
-            res.append({"kind": "propagate", "term": o["term"], "inner": term, "bb": dbb, "idx": "term",
-                        "conds": conditions(fn, pv, dbb), "line": line, "via": o["bb"]})
+            o2 = {"kind": "propagate", "term": o["term"], "inner": term, "bb": dbb, "idx": "term",
+                  "conds": conditions(fn, pv, dbb), "line": line, "via": o["bb"]}
+            res.extend(_expand_combinators(o2, fn, pv) or [o2])
         else:
             return None
     return res
